@@ -1,5 +1,6 @@
 import BleveModel.Model.Query
 import BleveModel.Props.BoolSearcher
+import BleveModel.Props.ConjSearcher
 set_option linter.unusedVariables false
 set_option linter.unusedSimpArgs false
 /-!
@@ -202,5 +203,53 @@ theorem bool_query_searcher_correct (w : Bleve.BoolSearcher.Weird) (m s n : Opti
   · unfold boolParts
     cases n <;> simp only [Bleve.BoolSearcher.AscOpt, Option.map_some, Option.map_none]
     exact predList_asc docs hasc _
+
+/-! ## the conjunction -/
+
+theorem evalAll_eq (qs : List Q) (docs : List Doc) (hinj : docs.Pairwise (fun a b => a.iid ≠ b.iid))
+    (d : Doc) (hd : d ∈ docs) :
+    (qs.map (fun q => den q docs)).all (fun m => m.contains d.iid) = evalAll qs d := by
+  induction qs with
+  | nil => rw [evalAll.eq_def]; rfl
+  | cons q qs ih =>
+    rw [evalAll.eq_def]
+    simp only [List.map_cons, List.all_cons]
+    rw [ih, den_eq_predList]
+    unfold predList
+    rw [contains_filter_map_iid (eval q) docs d hinj hd]
+
+/-- **The meaning of a conjunction is the intersection the conjunction searcher enumerates.** -/
+theorem den_conj (q : Q) (qs : List Q) (docs : List Doc) (hinj : docs.Pairwise (fun a b => a.iid ≠ b.iid)) :
+    den (.conj (q :: qs)) docs = Bleve.ConjSearcher.conjDen ((q :: qs).map (fun x => den x docs)) := by
+  rw [den_eq_predList]
+  show predList docs (eval (.conj (q :: qs))) =
+    (den q docs).filter (fun d => (qs.map (fun x => den x docs)).all (fun m => m.contains d))
+  rw [den_eq_predList]
+  unfold predList
+  rw [filter_map_iid]
+  congr 1
+  apply List.filter_congr
+  intro d hd
+  rw [eval.eq_def]
+  simp only
+  rw [evalAll.eq_def]
+  simp only
+  rw [evalAll_eq qs docs hinj d hd]
+
+/-- **End to end for the conjunction**: over a corpus listed in ascending internal-id order, the
+    conjunction searcher built from the clause searchers' match lists answers every program of Next and
+    Advance calls like the contract machine over the meaning of the query. -/
+theorem conj_query_searcher_correct (w : Bleve.BoolSearcher.Weird) (q : Q) (qs : List Q) (docs : List Doc)
+    (hasc : docs.Pairwise (fun a b => a.iid < b.iid)) (ops : List Bleve.BoolSearcher.Op) :
+    Bleve.ConjSearcher.runImpl w (Bleve.ConjSearcher.init ((q :: qs).map (fun x => den x docs))) ops =
+    Bleve.BoolSearcher.runSpec (den (.conj (q :: qs)) docs) ops := by
+  have hinj : docs.Pairwise (fun a b => a.iid ≠ b.iid) :=
+    List.Pairwise.imp (fun h => Nat.ne_of_lt h) hasc
+  rw [den_conj q qs docs hinj]
+  apply Bleve.ConjSearcher.conj_searcher_correct
+  intro l hl
+  obtain ⟨x, _, rfl⟩ := List.mem_map.1 hl
+  rw [den_eq_predList]
+  exact predList_asc docs hasc _
 
 end Bleve.Query
